@@ -24,6 +24,11 @@ pub struct SWorld {
     pub chans: BTreeMap<(usize, usize), VecDeque<Vec<u8>>>,
     pub edits: Vec<u8>,
     pub fps: u8,
+    /// if non-empty: only changes authored by these actors (first id byte) are candidates for an
+    /// injected false positive (keeps a model with fps = 2 small)
+    pub fp_actors: Vec<u8>,
+    /// if non-zero: a peer only generates while fewer than this many of its messages are undelivered
+    pub max_in_flight: usize,
     pub drops: u8,
     pub toggles: u8,
     pub restores: u8,
@@ -75,6 +80,8 @@ impl SWorld {
             chans: BTreeMap::new(),
             edits: vec![0; n],
             fps: 0,
+            fp_actors: vec![],
+            max_in_flight: 0,
             drops: 0,
             toggles: 0,
             restores: 0,
@@ -252,20 +259,22 @@ impl Model for SyncModel {
             if !s.links.contains(&link(i, j)) {
                 continue;
             }
-            v.push(SAct::Gen(i, j));
+            if s.max_in_flight == 0 || q.len() < s.max_in_flight {
+                v.push(SAct::Gen(i, j));
+            }
             if !q.is_empty() {
                 v.push(SAct::Deliver(i, j));
             }
         }
         if s.fps > 0 {
             for &(i, j) in s.chans.keys() {
-                if !s.links.contains(&link(i, j)) {
+                if !s.links.contains(&link(i, j)) || (s.max_in_flight > 0 && s.chans[&(i, j)].len() >= s.max_in_flight) {
                     continue;
                 }
                 // candidate false positives: hashes i has and j lacks
                 let theirs: BTreeSet<ChangeHash> = s.docs[j].get_changes(&[]).iter().map(|c| c.hash()).collect();
                 for c in s.docs[i].get_changes(&[]) {
-                    if !theirs.contains(&c.hash()) {
+                    if !theirs.contains(&c.hash()) && (s.fp_actors.is_empty() || c.actor_id().to_bytes().first().map(|b| s.fp_actors.contains(b)).unwrap_or(false)) {
                         v.push(SAct::GenFp(i, j, c.hash()));
                     }
                 }
@@ -502,8 +511,12 @@ pub fn start_docs(kind: &str, n: usize) -> Vec<Automerge> {
         tx.commit();
     };
     let mut base = Automerge::new().with_actor(actor(crate::world::BASE_ACTOR));
-    put(&mut base, "base", 1);
-    put(&mut base, "base", 2);
+    // six changes: with a shared history this long, a peer that has to send one or two changes sends
+    // them individually (chosen through the Bloom filter) instead of falling back to "more than a
+    // third of the document: send all of it", which would make the Bloom-driven paths unreachable
+    for i in 1..=6 {
+        put(&mut base, "base", i);
+    }
     let forked = |i: usize| base.fork().with_actor(actor(crate::world::REPLICA_ACTORS[i]));
     match kind {
         "empty" => (0..n).map(mk).collect(),
@@ -541,8 +554,30 @@ pub fn start_docs(kind: &str, n: usize) -> Vec<Automerge> {
             v[1].apply_changes([last]).unwrap();
             v
         }
+        // peer 0 holds a queued change `o` of a THIRD party whose parent `d` it lacks; peer 1 has
+        // `d` (but not `o`), an own change on top of it and a separate root `r` of a fourth actor.
+        // With two Bloom false positives (r in peer 0's filter, o in peer 1's) peer 0 unblocks `o`
+        // from peer 1's first answer and ends up with a "last sync" head peer 1 has never seen:
+        // the sync-reset path
+        "third-party-orphan" => {
+            let mut v: Vec<Automerge> = (0..n).map(forked).collect();
+            let mut c = base.fork().with_actor(actor(0x70));
+            put(&mut c, "d", 0);
+            let d_change = c.get_last_local_change().unwrap();
+            v[1].apply_changes([d_change]).unwrap();
+            put(&mut v[1], "b1", 0);
+            put(&mut v[0], "a1", 0);
+            let mut r = Automerge::new().with_actor(actor(0x7f));
+            put(&mut r, "r", 0);
+            v[1].merge(&mut r).unwrap();
+            put(&mut c, "o", 0);
+            let o_change = c.get_last_local_change().unwrap();
+            v[0].apply_changes([o_change]).unwrap();
+            v
+        }
         _ => panic!("unknown start {}", kind),
     }
 }
 
 pub const START_KINDS: &[&str] = &["empty", "one-has-history", "common-base", "diverged", "one-ahead", "orphan"];
+
